@@ -23,10 +23,11 @@ VARIABLES
   waitsAfterMark,\* waitpid calls issued after the harness marked "drop starts"
   marked,
   escaped,
+  pheld,         \* parent's descriptor table right after Pipeline::popen() returned (<<>> when not observed)
   viol, sanity
 
 avars == <<cfg, kind, base, pre, libpipes, nforks, stages, res, dog, afterDrop, waitsAfterMark, marked, escaped,
-           viol, sanity>>
+           pheld, viol, sanity>>
 
 V(ok, name) == IF ok THEN {} ELSE {name}
 SetOf(seq) == {seq[i] : i \in 1..Len(seq)}
@@ -38,15 +39,15 @@ NoRes == [ok |-> FALSE, errkind |-> "unset"]
 AInit ==
   /\ cfg = [id |-> "none"] /\ kind = "none" /\ base = <<>> /\ pre = <<>> /\ libpipes = {} /\ nforks = 0
   /\ stages = <<>> /\ res = NoRes /\ dog = <<>> /\ afterDrop = <<>> /\ waitsAfterMark = 0 /\ marked = FALSE
-  /\ escaped = FALSE /\ viol = {} /\ sanity = {}
+  /\ escaped = FALSE /\ pheld = <<>> /\ viol = {} /\ sanity = {}
 
 AReset(c, k, b) ==
   /\ cfg' = c /\ kind' = k /\ base' = Tab(b) /\ pre' = Tab(b) /\ libpipes' = {} /\ nforks' = 0
   /\ stages' = <<>> /\ res' = NoRes /\ dog' = <<>> /\ afterDrop' = <<>> /\ waitsAfterMark' = 0 /\ marked' = FALSE
-  /\ escaped' = FALSE /\ viol' = {} /\ sanity' = {}
+  /\ escaped' = FALSE /\ pheld' = <<>> /\ viol' = {} /\ sanity' = {}
 
 APre(t) == pre' = Tab(t) /\ UNCHANGED <<cfg, kind, base, libpipes, nforks, stages, res, dog, afterDrop,
-                                         waitsAfterMark, marked, escaped, viol, sanity>>
+                                         waitsAfterMark, marked, escaped, pheld, viol, sanity>>
 
 ASys(p, n, a, c, ret, allocs) ==
   /\ libpipes' = IF n = "pipe" /\ ret = 0 THEN libpipes \cup {c} ELSE libpipes
@@ -57,20 +58,22 @@ ASys(p, n, a, c, ret, allocs) ==
   /\ viol' = viol
        \cup V(p = 1 /\ n \in {"execve", "_exit", "escape"} => allocs = 0, "C17_no_alloc_between_fork_and_exec")
        \cup V(~(p = 0 /\ ((n = "close" /\ a <= 2))), "C05_parent_std_untouched")
-  /\ UNCHANGED <<cfg, kind, base, pre, stages, res, dog, afterDrop, sanity>>
+  /\ UNCHANGED <<cfg, kind, base, pre, stages, res, dog, afterDrop, pheld, sanity>>
 
 AStage(r) ==
   /\ stages' = Append(stages, [tag |-> r.tag, fds |-> Tab(r.fds), mask_empty |-> r.mask_empty,
                                sigpipe_ignored |-> r.sigpipe_ignored])
-  /\ UNCHANGED <<cfg, kind, base, pre, libpipes, nforks, res, dog, afterDrop, waitsAfterMark, marked, escaped, viol,
+  /\ UNCHANGED <<cfg, kind, base, pre, libpipes, nforks, res, dog, afterDrop, waitsAfterMark, marked, escaped, pheld, viol,
                  sanity>>
 
 AResult(r) == res' = r /\ UNCHANGED <<cfg, kind, base, pre, libpipes, nforks, stages, dog, afterDrop, waitsAfterMark,
-                                       marked, escaped, viol, sanity>>
+                                       marked, escaped, pheld, viol, sanity>>
+APHeld(have, t) == pheld' = (IF have THEN Tab(t) ELSE <<>>) /\ UNCHANGED <<cfg, kind, base, pre, libpipes, nforks, stages, res, dog,
+                                       afterDrop, waitsAfterMark, marked, escaped, viol, sanity>>
 AWatchdog(w) == dog' = Append(dog, w) /\ UNCHANGED <<cfg, kind, base, pre, libpipes, nforks, stages, res, afterDrop,
-                                                       waitsAfterMark, marked, escaped, viol, sanity>>
+                                                       waitsAfterMark, marked, escaped, pheld, viol, sanity>>
 AAfterDrop(ch) == afterDrop' = ch /\ UNCHANGED <<cfg, kind, base, pre, libpipes, nforks, stages, res, dog,
-                                                   waitsAfterMark, marked, escaped, viol, sanity>>
+                                                   waitsAfterMark, marked, escaped, pheld, viol, sanity>>
 
 \* ---------------------------------------------------------------- the watchdog's wait-for evidence
 \* holder = <<pid, inodes held above fd 2, "read"|"write"|"other", inode blocked on, parent holds the peer end,
@@ -164,15 +167,22 @@ PipelineVerdict(post, children) ==
     \cup V(AllStarted /\ (\A i \in 1..(N - 1) : Link(i)) => \A i \in 1..(N - 1) : Exclusive(i), "C13_links_used_by_nobody_else")
     \cup V(AllStarted /\ (\A i \in 1..(N - 1) : Link(i)) =>
              \A i, j \in 1..(N - 1) : i # j => LinkIno(i) # LinkIno(j), "C13_links_used_by_nobody_else")
+    \* ... not even by the parent: once the pipeline is started it holds no end of a connecting pipe
+    \cup V(AllStarted /\ (\A i \in 1..(N - 1) : Link(i)) /\ pheld # <<>> =>
+             \A i \in 1..(N - 1) : \A fd \in DOMAIN pheld : pheld[fd].ino # LinkIno(i), "C13_links_used_by_nobody_else")
+    \* a pipeline that hangs although every pipe is where it belongs would be C12's business; one that hangs because
+    \* of who holds its pipes is a wiring fault
+    \cup V(FailAt < 0 => ~(Hung /\ HangExplained), "C13_pipeline_never_finishes")
     \cup V(AllStarted /\ (\A i \in 1..(N - 1) : Link(i)) => FirstStdinOk, "C13_input_reaches_first_stage_only")
     \cup V(AllStarted /\ (\A i \in 1..(N - 1) : Link(i)) => LastStdoutOk, "C13_output_from_last_stage_only")
     \cup V(AllStarted => StderrShared, "C13_shared_stderr")
-    \cup V(FailAt < 0 /\ res.ok /\ res.has_out =>
+    \* (streaming scenarios use generator / copier programs: only wiring, termination and clean-up are judged there)
+    \cup V(FailAt < 0 /\ res.ok /\ res.has_out /\ ~cfg.stream =>
              res.out.regular /\ res.out.count = inputLines /\ (inputLines > 0 => res.out.first = 1 /\ res.out.suffix = Concat(Tags)),
            "C13_output_is_composition_in_order")
-    \cup V(FailAt < 0 /\ res.ok /\ res.has_err /\ cfg.stderr \in {"file", "capture"} =>
+    \cup V(FailAt < 0 /\ res.ok /\ res.has_err /\ cfg.stderr \in {"file", "capture"} /\ ~cfg.stream =>
              SetOf(res.err_lines) = SetOf(cfg.elines) /\ Len(res.err_lines) = N, "C13_no_stderr_line_lost")
-    \cup V(FailAt < 0 /\ res.ok /\ res.has_status /\ cfg.term \in {"join", "capture", "popen"} =>
+    \cup V(FailAt < 0 /\ res.ok /\ res.has_status /\ cfg.term \in {"join", "capture", "popen"} /\ ~cfg.stream =>
              res.status = [k |-> "exited", v |-> cfg.codes[N]], "C13_status_of_last_stage")
     \cup V(FailAt < 0 /\ res.ok /\ ~det /\ cfg.term \in {"join", "capture", "popen", "stream_stdout", "stream_stdin"} =>
              children = "none", "C13_all_stages_exited_and_reaped")
